@@ -359,6 +359,27 @@ Definition brackets_bad (c : lcase) (sk : list (ev * N)) : bool :=
     unexpected number of rows, a non-zero exit status). *)
 Definition bit (b : bool) (v : N) : N := if b then v else 0%N.
 
+(** tempo, exactly, on the prompter's own recorded instants (CSV: seconds since
+    the play's epoch, 4 decimals).  From the model's theorems
+    [acts_sequential] and [not_ahead_of_tempo]: for an action [e2] of act
+    instance [a] and every action [e1] of an earlier act instance,
+    [gend e1 <= act_start a] and [act_start a + waitUntil <= gstart e2], hence
+    [start2 >= start1 + duration1 + waitUntil] — the epoch cancels — and, the
+    epoch preceding every act, [start2 >= waitUntil].  The prompter waits on a
+    timer: a start can only be late, never early, so the only slack is the
+    rounding of the printed numbers (50 us each). *)
+Definition tempo_exact_bad (c : lcase) (sk : list (ev * N)) : bool :=
+  let cn := csv_numbered c in
+  let rows := flat_map (fun en => match csv_of cn (e_actor (fst en), e_action (fst en)) (snd en) with
+                                  | Some cr => [(fst en, cr)]
+                                  | None => []
+                                  end) sk in
+  existsb (fun x2 =>
+    let '(e2, c2) := x2 in
+    (cr_start c2 + 100000 <? e_wait e2) ||
+    existsb (fun x1 => let '(e1, c1) := x1 in
+                       Nat.ltb (e_act e1) (e_act e2) && (cr_start c2 + 200000 <? cr_start c1 + cr_dur c1 + e_wait e2)) rows) rows.
+
 (** rendezvous plays: every action waits until all the others have started, so
     all the intervals the commands experienced contain one common instant. *)
 Definition rendezvous_bad (c : lcase) : bool :=
@@ -383,7 +404,7 @@ Definition c04_oracle_mask (c : lcase) : N :=
              || negb (forallb (fun en => match obs_of led en with Some _ => true | None => false end) sk) in
       N.add (bit (line_order_bad led sk) 1%N)
      (N.add (bit (barrier_bad led sk O O (t_begin c) (t_begin c)) 2%N)
-     (N.add (bit (tempo_bad led sk (act_bounds led sk acts O (t_begin c))) 4%N)
+     (N.add (bit (tempo_bad led sk (act_bounds led sk acts O (t_begin c)) || tempo_exact_bad c sk) 4%N)
      (N.add (bit (rows_bad c) 8%N)
      (N.add (bit (brackets_bad c sk) 16%N) (bit incomplete 32%N)))))
   end).
